@@ -1,2 +1,171 @@
-import GuppyVerif.Model.Unify
-/-! C12 property theorems (under construction) -/
+import GuppyVerif.Lemmas.C12Sound
+import GuppyVerif.Lemmas.C12Star
+import GuppyVerif.Lemmas.C12Term
+import GuppyVerif.Lemmas.C12Compl
+/-! # C12 — type inference finds an instantiation exactly when one exists
+
+Property theorems about `Model/Unify.lean` (the model of `unify`, `_unify_var`, `_occurs`, `_unify_args`,
+`Substituter` in `tys/ty.py`, `tys/subst.py` after the two `fix:` commits for D5 and D16).
+
+Vocabulary (Spec/C12.lean): `Solves θ σ` — the total assignment `θ` satisfies every equation `v ≐ σ(v)`;
+`Unifies θ s t`; `FlagEq` — identical up to the ownership flags of function inputs; `Extends`; `Acyclic` —
+a rank on variables decreases along bindings (consistent prior); `passes σ n` — `n` `Substituter` passes.
+All statements are for every environment, every pair of terms and every prior; no size bound. -/
+namespace GuppyVerif.Unify
+
+/-- **Soundness** (any fuel).  A returned substitution extends the prior, every solution of it solves the
+    prior and makes `s` and `t` identical (up to ownership flags), and it is acyclic if the prior was. -/
+theorem unify_sound (E : Env) (f : Nat) (s t : Tm) (σ₀ σ : Subst) (h : unify E f s t σ₀ = .ok σ) :
+    Extends σ₀ σ ∧ (∀ θ, Solves θ σ → Solves θ σ₀ ∧ Unifies θ s t) ∧ (Acyclic σ₀ → Acyclic σ) := by
+  have g := unify_good E f s t σ₀ σ h
+  exact ⟨g.ext, fun θ hθ => ⟨hθ.of_extends g.ext, g.eq θ hθ⟩, g.acyc⟩
+
+/-- **Soundness under full application.**  For a consistent prior, applying the returned substitution
+    often enough (any number of passes `n ≥ N`) makes both sides identical up to flags, and the result is a
+    fixpoint: no bound variable is left, one more pass changes nothing. -/
+theorem unify_sound_applied (E : Env) (f : Nat) (s t : Tm) (σ₀ σ : Subst) (h₀ : Acyclic σ₀)
+    (h : unify E f s t σ₀ = .ok σ) :
+    ∃ N, ∀ n, N ≤ n →
+      FlagEq (applyN σ n s) (applyN σ n t) ∧
+      Saturated σ (applyN σ n s) ∧ Saturated σ (applyN σ n t) ∧
+      apply σ (applyN σ n s) = applyN σ n s ∧ apply σ (applyN σ n t) = applyN σ n t := by
+  have g := unify_good E f s t σ₀ σ h
+  have ha : Acyclic σ := g.acyc h₀
+  obtain ⟨N₁, h₁⟩ := passes_solves ha
+  obtain ⟨N₂, h₂⟩ := applyN_saturated ha s
+  obtain ⟨N₃, h₃⟩ := applyN_saturated ha t
+  refine ⟨N₁ + N₂ + N₃, fun n hn => ?_⟩
+  have hs := h₂ n (by omega)
+  have ht := h₃ n (by omega)
+  refine ⟨?_, hs, ht, apply_saturated hs, apply_saturated ht⟩
+  rw [applyN_eq_inst, applyN_eq_inst]
+  apply g.eq
+  intro v u hv
+  unfold FlagEq
+  rw [h₁ n (by omega) v u hv]
+
+/-- The ownership-flag rule at the root: two function types only unify when they have the same
+    parameters, the same number of inputs, and no pair of inputs that are both linear carries different
+    flags.  (For function types nested deeper the rule is part of the model but only this root statement is
+    proved; see notes/C12.md.) -/
+theorem unify_flags_respected_partial (E : Env) (f : Nat) (fl₁ fl₂ : List Nat) (p₁ p₂ : Nat) (as bs : List Tm)
+    (σ₀ σ : Subst) (h : unify E f (.node (.func fl₁ p₁) as) (.node (.func fl₂ p₂) bs) σ₀ = .ok σ) :
+    p₁ = p₂ ∧ fl₁.length = fl₂.length ∧ flagsClash E fl₁ fl₂ as bs = false := by
+  cases f with
+  | zero => simp [unify, unifyStep] at h
+  | succ f =>
+    simp only [unify, unifyStep] at h
+    split at h
+    · rename_i e
+      split at h
+      · cases h
+      · rename_i hl
+        split at h
+        · cases h
+        · rename_i hc
+          exact ⟨e, by simpa using hl, by simpa using hc⟩
+    · cases h
+
+/-- **Termination.**  On a consistent (acyclic) prior the recursion of `unify` is finite: some fuel `n`
+    yields a proper outcome (a substitution or `None`), and every larger fuel yields the same outcome.
+    (Existence of the bound is proved by a lexicographic measure — unbound variables of the finite universe,
+    ranks, sizes; no closed formula for `n` is given.) -/
+theorem unify_terminates (E : Env) (s t : Tm) (σ₀ : Subst) (h₀ : Acyclic σ₀) :
+    ∃ n, unify E n s t σ₀ ≠ .oof ∧ ∀ m, n ≤ m → unify E m s t σ₀ = unify E n s t σ₀ :=
+  unify_terminates_aux E s t σ₀ h₀
+
+/-- Fuel only decides whether an outcome is reached, never which one. -/
+theorem unify_fuel_irrelevant (E : Env) (s t : Tm) (σ₀ : Subst) (n m : Nat)
+    (hn : unify E n s t σ₀ ≠ .oof) (hm : unify E m s t σ₀ ≠ .oof) :
+    unify E n s t σ₀ = unify E m s t σ₀ := by
+  rw [← unify_mono E (Nat.le_max_left n m) s t σ₀ hn, ← unify_mono E (Nat.le_max_right n m) s t σ₀ hm]
+
+/-- **Existence ⇐ success** (no side conditions): when `unify` returns a substitution on a consistent
+    prior, an assignment exists that solves the prior and makes both sides identical (up to flags) — namely
+    enough passes of the result. -/
+theorem unify_success_gives_unifier (E : Env) (f : Nat) (s t : Tm) (σ₀ σ : Subst) (h₀ : Acyclic σ₀)
+    (h : unify E f s t σ₀ = .ok σ) : ∃ θ, Solves θ σ₀ ∧ Unifies θ s t := by
+  have g := unify_good E f s t σ₀ σ h
+  obtain ⟨N, hN⟩ := passes_solves (g.acyc h₀)
+  have hθ : Solves (passes σ N) σ := fun v u hv => by unfold FlagEq; rw [hN N (Nat.le_refl _) v u hv]
+  exact ⟨passes σ N, hθ.of_extends g.ext, g.eq _ hθ⟩
+
+/-- **Completeness** — full statement of the property: *if some assignment solves the consistent prior and
+    makes `s` and `t` identical, `unify` returns a substitution.*  Proved here for well-sorted inputs
+    (`Tm.wf`, `WfSubst`: what Python's static types guarantee) and under `NoLinear E`, i.e. when no type is
+    linear so that the ownership-flag rule never fires.  The gap: with linear inputs the code applies the
+    flag rule to the types *as written* (a variable is linear iff declared so), which is neither sound nor
+    complete for "identical after instantiation"; see notes/C12.md. -/
+theorem unify_complete_partial (E : Env) (hE : NoLinear E) (s t : Tm) (σ₀ : Subst)
+    (hs : s.wf = true) (ht : t.wf = true) (hw : WfSubst σ₀) (h₀ : Acyclic σ₀)
+    (θ : V → Tm) (hθ : Solves θ σ₀) (hu : Unifies θ s t) :
+    ∃ n σ, ∀ m, n ≤ m → unify E m s t σ₀ = .ok σ := by
+  obtain ⟨n, hn, hst⟩ := unify_terminates_aux E s t σ₀ h₀
+  have hc := (unify_compl E hE θ n s t σ₀ hs ht hw hθ hu).1
+  cases hres : unify E n s t σ₀ with
+  | oof => exact absurd hres hn
+  | fail => exact absurd hres hc
+  | ok σ => exact ⟨n, σ, fun m hm => by rw [hst m hm, hres]⟩
+
+/-- **Most general** (same hypotheses): every assignment that solves the prior and unifies `s` and `t`
+    also solves the returned substitution, and factors through it: `θ = θ ∘ σᵏ` up to flags for every number
+    of passes `k` — in particular through the full application of `σ`. -/
+theorem unify_mgu_partial (E : Env) (hE : NoLinear E) (f : Nat) (s t : Tm) (σ₀ σ : Subst)
+    (hs : s.wf = true) (ht : t.wf = true) (hw : WfSubst σ₀) (h : unify E f s t σ₀ = .ok σ)
+    (θ : V → Tm) (hθ : Solves θ σ₀) (hu : Unifies θ s t) :
+    Solves θ σ ∧ ∀ k x, FlagEq (inst θ (applyN σ k x)) (inst θ x) := by
+  have hsol := ((unify_compl E hE θ f s t σ₀ hs ht hw hθ hu).2 σ h).1
+  exact ⟨hsol, fun k x => solves_applyN hsol k x⟩
+
+/-- **Exactly when** (same hypotheses): `unify` succeeds iff a unifier respecting the prior exists. -/
+theorem unify_iff_partial (E : Env) (hE : NoLinear E) (s t : Tm) (σ₀ : Subst)
+    (hs : s.wf = true) (ht : t.wf = true) (hw : WfSubst σ₀) (h₀ : Acyclic σ₀) :
+    (∃ n σ, unify E n s t σ₀ = .ok σ) ↔ ∃ θ, Solves θ σ₀ ∧ Unifies θ s t := by
+  constructor
+  · rintro ⟨n, σ, h⟩; exact unify_success_gives_unifier E n s t σ₀ σ h₀ h
+  · rintro ⟨θ, hθ, hu⟩
+    obtain ⟨n, σ, h⟩ := unify_complete_partial E hE s t σ₀ hs ht hw h₀ θ hθ hu
+    exact ⟨n, σ, h n (Nat.le_refl _)⟩
+
+/-! ### non-vacuity -/
+
+/-- the hypotheses of the completeness theorems are satisfiable: default environment, `(?2)` against `(int)` -/
+example : NoLinear {} ∧ (Tm.node .tuple [.targ (.var 2)]).wf = true ∧ WfSubst [] ∧ Acyclic [] ∧
+    Solves (fun _ => .atom (.num 2)) [] ∧
+    Unifies (fun _ => .atom (.num 2)) (.node .tuple [.targ (.var 2)]) (.node .tuple [.targ (.atom (.num 2))]) :=
+  ⟨noLinear_default, rfl, fun _ _ h => by simp [lookup] at h, ⟨fun _ => 0, fun _ _ h => by simp [lookup] at h⟩,
+   fun _ _ h => by simp [lookup] at h, rfl⟩
+
+/-- acyclicity cannot be dropped: on the cyclic substitution the unrepaired code used to return
+    (`{?0 ↦ (?2), ?2 ↦ (?0)}`, D5) a further `unify(?0, ?2, σ)` never reaches an outcome -/
+example : unify {} 25 (.var 0) (.var 2)
+    [(0, .node .tuple [.targ (.var 2)]), (2, .node .tuple [.targ (.var 0)])] = .oof := by rfl
+
+/-- a concrete successful run with a non-empty acyclic prior: `unify((?2, ?0), ((int), ?4), {?4 ↦ (?6)})` -/
+example : unify {} 5 (.node .tuple [.targ (.var 2), .targ (.var 0)])
+    (.node .tuple [.targ (.node .tuple [.targ (.atom (.num 2))]), .targ (.var 4)])
+    [(4, .node .tuple [.targ (.var 6)])]
+    = .ok [(0, .node .tuple [.targ (.var 6)]), (2, .node .tuple [.targ (.atom (.num 2))]),
+           (4, .node .tuple [.targ (.var 6)])] := by rfl
+
+example : Acyclic [(4, .node .tuple [.targ (.var 6)])] := by
+  refine ⟨fun v => if v = 4 then 1 else 0, ?_⟩
+  intro v u h y hy
+  simp only [lookup] at h
+  split at h
+  · rename_i e; subst e; cases h; simp [Tm.vars, varsList] at hy; subst hy; simp
+  · cases h
+
+/-- D5 (the witness that produced a cyclic result before the fix): now rejected -/
+example : unify {} 9 (.node .tuple [.targ (.var 2), .targ (.var 0)])
+    (.node .tuple [.targ (.node .tuple [.targ (.var 0)]), .targ (.node .tuple [.targ (.var 2)])]) [] = .fail := by rfl
+
+/-- D16: `ConstValue(bool, True)` against `ConstValue(nat, 1)` (same value code, different type code) -/
+example : unify {} 9 (.atom (.cval 3 1)) (.atom (.cval 0 1)) [] = .fail := by rfl
+
+/-- the flag rule fires: `(Q @owned) -> None` against `(Q) -> None` with `Q` linear (definition 4) -/
+example : unify { dNoCopy := [4], dNoDrop := [4] } 9
+    (.node (.func [2] 0) [.targ (.node (.opaque 4) []), .targ (.atom .none)])
+    (.node (.func [0] 0) [.targ (.node (.opaque 4) []), .targ (.atom .none)]) [] = .fail := by rfl
+
+end GuppyVerif.Unify
